@@ -86,6 +86,23 @@ def gen_rule_seeds(sdir):
                 i += 1
     for f in glob.glob(os.path.join(ybuild.REPO, "tests", "oss-fuzz", "rules_fuzzer_corpus", "*")):
         texts.append(open(f, "rb").read()[:6000])
+    # systematic small rules around every string modifier: each modifier alone, every ordered pair
+    # (legal combinations and the documented "duplicated modifier" / "invalid modifier" rejections),
+    # for text strings, hex strings and regexps - error paths of the grammar get at least one
+    # execution under the leak checker before mutation starts
+    mods = ["nocase", "wide", "ascii", "fullword", "private", "xor", "xor(1)", "xor(1-9)", "base64", "base64wide",
+            'base64("!@#$%^&*(){}[].,|ABCDEFGHIJ\\x09LMNOPQRSTUVWXYZabcdefghijklmnopqrstu")']
+    bodies = [('"abc"', mods), ("{ 61 62 ?? 63 }", ["private", "wide"]), ("/ab+c/", ["nocase", "wide", "ascii", "fullword", "private", "xor"])]
+    for body, ms in bodies:
+        for a in ms:
+            texts.append(("rule t { strings: $a = %s %s condition: $a }\n" % (body, a)).encode())
+            for b in ms:
+                texts.append(("rule t { strings: $a = %s %s %s condition: $a }\n" % (body, a, b)).encode())
+    texts += [b'rule t { strings: $a = "a" $a = "b" condition: $a }\n', b'rule t { condition: true } rule t { condition: false }\n',
+              b'private private rule t { condition: true }\n', b'global global rule t { condition: true }\n',
+              b'rule t : a a { condition: true }\n', b'rule t { meta: a = 1 a = 2 condition: true }\n',
+              b'rule t { condition: for any i in (1..2) : ( for any i in (1..2) : ( i == 1 ) ) }\n',
+              b'rule t { strings: $a = "x" condition: for any of them : ( for any of them : ( $ ) ) }\n']
     seen = set()
     n = 0
     for t in texts:
